@@ -6,7 +6,7 @@ import zlib
 import numpy as np
 
 from sim import filgen
-from sim.core import SimLivelock, Violation
+from sim.core import open_reader, SimLivelock, Violation
 from sim.disk import SimDisk
 
 ID = "C02"
@@ -82,6 +82,9 @@ def generate(rng, tier) -> dict:
             n = rng.randint(0, total + 2)
         return (n // item) * item
 
+    if len(files["nsamps"]) > 1 and rng.random() < 0.3:
+        # "any list of SIGPROC files opened as one stream": not contiguous, not even in time order
+        files["tstart_shift"] = [round(rng.uniform(-3, 3), 6) for _ in files["nsamps"]]
     nops = rng.randint(1, 14 if tier == "quick" else 40)
     ops = []
     for _ in range(nops):
@@ -117,6 +120,10 @@ def fixup(sc):
     if not f["nsamps"]:
         return None
     f["pad"] = (list(f.get("pad") or []) + [0, 0, 0])[: len(f["nsamps"])]
+    if f.get("tstart_shift"):
+        f["tstart_shift"] = (list(f["tstart_shift"]) + [0.0, 0.0, 0.0])[: len(f["nsamps"])]
+        if len(f["nsamps"]) < 2:
+            del f["tstart_shift"]
     item = {16: 2, 32: 4}.get(f["nbits"], 1)
     bitfact = 8 // f["nbits"] if f["nbits"] < 8 else 1
     for o in sc["ops"]:
@@ -179,7 +186,11 @@ def execute(sc, ctx) -> None:
     inner = [b for b in bounds[:-1]]
 
     with SimDisk(ctx, sc["faults"], budget_per_op=8 * (len(lens) + 2) + 16) as sim:
-        reader = FilReader(fs.paths)
+        if files.get("tstart_shift"):
+            ctx.probe("non-contiguous-list")
+            reader = open_reader("C02", fs.paths, check_contiguity=False)
+        else:
+            reader = open_reader("C02", fs.paths)
         fr = reader._file
         if reader.header.nsamples != N:
             raise Violation("C02/open/nsamples", f"{reader.header.nsamples} != {N}")
@@ -243,9 +254,14 @@ def execute(sc, ctx) -> None:
                         ctx.probe("relseek-back-across-boundary")
                     pos = target
                 else:
-                    if not isinstance(raised, ValueError):
-                        raise Violation(f"C02/{kind}/out-of-range-seek-not-ValueError", repr(raised), info)
-                    ctx.probe("out-of-range-seek-raises")
+                    # the statement quantifies over IN-RANGE seeks; what an out-of-range seek does (the
+                    # library raises ValueError, another reader might clamp or allow the end position) is
+                    # not asserted - only that the reader can be re-synchronised afterwards
+                    if raised is None:
+                        raised = LookupError("out-of-range seek accepted")  # forces the re-synchronisation below
+                        ctx.observations["out-of-range-seek-accepted"] += 1
+                    else:
+                        ctx.probe("out-of-range-seek-raises")
                 ctx.log("op", i, kind, op["off"], "ok" if raised is None else type(raised).__name__)
             elif kind == "cread":
                 nbytes = (op["n"] // bitfact) * item
